@@ -87,6 +87,13 @@ type FloodConfig struct {
 	// private key. When nil, all commands are accepted (backward compatible).
 	SigningPublicKey *[32]byte
 
+	// MaxHops is the maximum number of hops a route announcement may travel
+	// from its origin (routing.max_hops). An announcement that has already
+	// travelled further is neither stored nor forwarded, and one that has
+	// travelled exactly MaxHops is stored but not forwarded. Zero disables
+	// the limit.
+	MaxHops int
+
 	// TimestampWindow is the maximum age of a command timestamp to accept.
 	// Commands with timestamps outside +/- this window are rejected.
 	// Default is 5 minutes.
@@ -266,6 +273,12 @@ func (f *Flooder) HandleRouteAdvertise(
 		}
 	}
 
+	// Enforce the configured hop limit: the decoded path has one entry per hop
+	// the announcement has travelled (the sender is path[0], the origin last).
+	if f.cfg.MaxHops > 0 && len(path) > f.cfg.MaxHops {
+		return false
+	}
+
 	// An announcement whose path already passes through us has looped back
 	// (the seen-by list does not survive a full-table replay): neither store
 	// nor forward it.
@@ -332,7 +345,11 @@ func (f *Flooder) HandleRouteAdvertise(
 		f.routeMgr.ProcessForwardRouteAdvertise(fromPeer, originAgent, sequence, forwardEntries, path, encPath)
 	}
 
-	// Flood to other peers (forward encrypted path as-is)
+	// Flood to other peers (forward encrypted path as-is), unless the next
+	// receiver would be beyond the hop limit
+	if f.cfg.MaxHops > 0 && len(path) >= f.cfg.MaxHops {
+		return true
+	}
 	newSeenBy := append(seenBy, f.localID)
 	f.floodAdvertisementEncrypted(fromPeer, originAgent, originDisplayName, sequence, routes, encPath, newSeenBy)
 
